@@ -725,9 +725,11 @@ pub fn gen_program(ch: &mut Choices, curve: Curve, cfg: &GenCfg) -> Program {
     let mut prog = Program { curve, tlabel, pre, ops, owned, cap_p, cap_v, party_cap, seed, pc, gens };
     // now and then the first phase ends on a gate whose wires are all zero (a full gate, or an
     // allocation left open), or a closure does
+    // (a further first-phase gate renumbers the second-phase ones, which the generated expressions
+    // name by index: only done when the closures hold no gates)
     match ch.weighted(&[236, 8, 6, 6]) {
-        1 => prog.ops.push(Op::AllocMul { l: Sc::C(ScalarSpec::Zero), r: Sc::C(ScalarSpec::Zero) }),
-        2 => {
+        1 if prog.shape().n2 == 0 => prog.ops.push(Op::AllocMul { l: Sc::C(ScalarSpec::Zero), r: Sc::C(ScalarSpec::Zero) }),
+        2 if prog.shape().n2 == 0 => {
             // only when no allocation is pending already (an odd number of single allocations so far)
             if !prog.shape().half_open_end1 {
                 prog.ops.push(Op::Alloc { val: Sc::C(ScalarSpec::Zero) });
